@@ -4,6 +4,7 @@ import re
 from .. import astx
 from .. import db as D
 from .. import prog as P
+from ..rules import sets as SP
 from ..rules import rel, life as L
 from witness import wit, c07 as gen
 
@@ -156,6 +157,171 @@ def visit_rule(chk, db):
         chk.analysis_broken("VISIT: the index dispatcher of etl::visit was not recognised")
 
 
+def _strip_move(e):
+    e = astx.strip_casts(e)
+    while e is not None and e.get("k") == "call" and astx.callee(e)[0] in ("move", "forward") and len(e["a"]) == 1:
+        e = astx.strip_casts(e["a"][0])
+    if e is not None and e.get("k") == "paren":
+        return _strip_move(e.get("e"))
+    return e
+
+
+def _is_ref(e, name):
+    e = _strip_move(e)
+    return e is not None and e.get("k") == "ref" and e.get("n") == name
+
+
+def _engage_atoms(c, taken, src):
+    """[(who, engaged)] known when condition c evaluates to `taken`; who in ('src', 'this')"""
+    c = astx.strip_casts(c)
+    if c is None:
+        return []
+    if c.get("k") == "paren":
+        return _engage_atoms(c.get("e"), taken, src)
+    if c.get("k") == "un" and c["op"] == "!":
+        return _engage_atoms(c["e"], not taken, src)
+    if c.get("k") == "bin" and c["op"] == "&&":
+        return _engage_atoms(c["l"], True, src) + _engage_atoms(c["r"], True, src) if taken else []
+    if c.get("k") == "bin" and c["op"] == "||":
+        return _engage_atoms(c["l"], False, src) + _engage_atoms(c["r"], False, src) if not taken else []
+    if _is_ref(c, src):
+        return [("src", taken)]
+    if c.get("k") == "un" and c["op"] == "*" and c["e"].get("k") == "this":
+        return [("this", taken)]
+    if c.get("k") == "call":
+        nm, q, recv, kind = astx.callee(c)
+        if nm in ("has_value", "operator bool") and kind == "member":
+            if astx.is_this(recv):
+                return [("this", taken)]
+            if _is_ref(recv, src):
+                return [("src", taken)]
+    return []
+
+
+def engage_rule(chk, db):
+    """ENGAGE: a constructor / assignment of optional from another optional ends with the source's engagement state, and the
+    source is only dereferenced where it was tested to hold a value (the conversion is total in std)."""
+    n = 0
+    for rq in ("etl::optional", "etl::optional<T &>"):
+        for f in db.funcs:
+            if f.get("record") != rq or f.get("body") is None or f["n"] not in ("<ctor>", "operator="):
+                continue
+            srcs = [p["n"] for p in f["params"] if "optional<" in p["ty"]]
+            if len(srcs) != 1:
+                continue
+            src = srcs[0]
+            construct = astx.sig(f)
+            is_ctor = f["n"] == "<ctor>"
+            n += 1
+            chk.instance("ENGAGE")
+            problems = []
+            unknown = None
+            fields = set(fd["n"] for fd in (db.record(rq) or {}).get("fields", []))
+
+            def scan(e, st):
+                """st = {'this':..,'src':..,'copied':bool}; returns list of problems for derefs"""
+                out = []
+                for x in astx.walk_expr(e, into_lambdas=True):
+                    k = x.get("k")
+                    deref = False
+                    if k == "un" and x["op"] == "*" and _is_ref(x["e"], src):
+                        deref = True
+                    if k == "call":
+                        nm, q, recv, kind = astx.callee(x)
+                        if kind == "member" and nm in ("value", "operator*", "operator->") and _is_ref(recv, src):
+                            deref = True
+                        if kind == "member" and astx.is_this(recv):
+                            if nm in ("emplace", "construct"):
+                                st["this"] = "E"
+                            elif nm == "reset":
+                                st["this"] = "D"
+                    if k == "mem" and x.get("arrow") and _is_ref(x.get("b"), src) and x.get("dk") != "field":
+                        pass
+                    if deref and st["src"] != "E":
+                        out.append(x)
+                    if k == "bin" and x["op"] == "=":
+                        l = astx.strip_casts(x["l"])
+                        r = _strip_move(x["r"])
+                        if l is not None and l.get("k") == "mem" and astx.is_this(l.get("b")) and l.get("n") in fields:
+                            if r is not None and r.get("k") == "mem" and _is_ref(r.get("b"), src) and r.get("n") == l.get("n"):
+                                st["copied"] = True
+                            elif r is not None and r.get("k") in ("nullptr",) or astx.int_value(r) == 0:
+                                st["this"] = "D"
+                            elif r is not None and r.get("k") == "call" and astx.callee(r)[0] == "addressof":
+                                st["this"] = "E"
+                            else:
+                                st["this"] = "?"
+                return out
+
+            def init_alternatives():
+                """states after the member initialisers (a conditional initialiser yields one state per arm)"""
+                alts = [{"this": "D" if is_ctor else "?", "src": "?", "copied": False}]
+                for ini in (f.get("inits") or []) if is_ctor else []:
+                    e = ini.get("e")
+                    if e is None or ini.get("field") not in fields:
+                        continue
+                    r = _strip_move(e)
+                    args = r["a"] if r is not None and r.get("k") in ("construct", "initlist", "parenlist") else [r]
+                    a0 = _strip_move(args[0]) if len(args) == 1 else None
+                    arms = [(None, a0)]
+                    if a0 is not None and a0.get("k") == "cond":
+                        arms = [((a0["c"], True), _strip_move(a0["t"])), ((a0["c"], False), _strip_move(a0["f"]))]
+                    nxt = []
+                    for st0 in alts:
+                        for cnd, val in arms:
+                            st = dict(st0)
+                            if cnd is not None:
+                                for x in scan(cnd[0], st):
+                                    problems.append(("unchecked-deref", "the member initialiser of `%s` dereferences `%s` without testing that it holds a value" % (ini.get("field"), src), x))
+                                for who, v in _engage_atoms(cnd[0], cnd[1], src):
+                                    st[who] = "E" if v else "D"
+                            for x in scan(val, st) if val is not None else []:
+                                problems.append(("unchecked-deref", "the member initialiser of `%s` dereferences `%s` without testing that it holds a value"
+                                                 % (ini.get("field"), src), x))
+                            if val is not None and val.get("k") == "mem" and _is_ref(val.get("b"), src) and val.get("n") == ini.get("field"):
+                                st["copied"] = True
+                            elif val is not None and val.get("k") == "call" and astx.callee(val)[0] == "addressof":
+                                st["this"] = "E"
+                            elif val is not None and (val.get("k") == "nullptr" or astx.int_value(val) == 0):
+                                st["this"] = "D"
+                            nxt.append(st)
+                    alts = nxt
+                return alts
+
+            for p, st in [(p, dict(a)) for p in SP.paths(f["body"]) for a in init_alternatives()]:
+                for ev in p:
+                    if ev[0] == "cond":
+                        for who, val in _engage_atoms(ev[1], ev[2], src):
+                            st[who] = "E" if val else "D"
+                        continue
+                    for e in SP.event_exprs(ev):
+                        for x in scan(e, st):
+                            problems.append(("unchecked-deref", "`%s` dereferences the source without testing that it holds a value" % astx.show(x, 40), x))
+                if st["copied"]:
+                    continue
+                if st["src"] == "?":
+                    if not problems:
+                        unknown = "a path never tests the engagement state of `%s`" % src
+                    continue
+                if st["this"] != st["src"]:
+                    want = "engaged" if st["src"] == "E" else "empty"
+                    have = {"E": "is engaged", "D": "is empty", "?": "keeps whatever state it had"}[st["this"]]
+                    problems.append(("state", "on the path where the source is %s the target %s" % (want, have), None))
+            seen = set()
+            uniq = []
+            for kind, msg, node in problems:
+                if (kind, msg) not in seen:
+                    seen.add((kind, msg))
+                    uniq.append((kind, msg, node))
+            chk.obligation("ENGAGE", construct, (not uniq) if unknown is None or uniq else None)
+            for kind, msg, node in uniq[:2]:
+                chk.violation("ENGAGE", construct, kind, "%s: %s" % (astx.loc(f, node if isinstance(node, dict) else None), msg), {"where": astx.loc(f)})
+            if not uniq and unknown:
+                chk.unknown_instance("ENGAGE", construct, unknown)
+    if n < 6:
+        chk.analysis_broken("ENGAGE: only %d optional members take another optional (floor 6)" % n)
+
+
 def run(chk, tier):
     db = D.load("checks")
     nrel = rel.check(chk, db, ["_optional/optional.hpp", "_variant/variant.hpp", "_expected/unexpected.hpp"])
@@ -164,6 +330,7 @@ def run(chk, tier):
     role_rule(chk, db)
     pair_rule(chk, db)
     visit_rule(chk, db)
+    engage_rule(chk, db)
     tus, info = gen.generate(tier == "quick")
     res = wit.compile_many(tus, compiler="g++", jobs=16)
     total = 0
